@@ -176,6 +176,11 @@ func runCheck(eng *Engine, args []string, tier string, timeout, par int) int {
 				if !clauseCountsFor(o.Labels, prop) {
 					continue
 				}
+			case "inv-preserved":
+				// loop step clauses are checked at the back edges and never assumed: selected by label like postconditions
+				if strings.Contains(o.Name, "/step#") && !clauseCountsFor(o.Labels, prop) {
+					continue
+				}
 			}
 			if j.con.Timeout > 0 {
 				o.Timeout = j.con.Timeout
